@@ -278,6 +278,26 @@ def run(prog: Program, col: Collector, tier: str, refs: Optional[Refs] = None, c
                 else:
                     col.unresolved(construct, f"kind of binder field `{b}` unknown (no isinstance assertion)", t.cls.module.loc(t.cls.node))
             continue
+        # a container-kind binder field is rebuilt FROM the old field (each old binder mapped through the renaming, unrenamed ones kept),
+        # or taken from the base conversion's result for that position - never from the renaming map alone, which may cover only some binders
+        selfn_ = conv.positional[0]
+        for b in sorted(binders):
+            if kinds.get(b) != "container" or b not in t.fields:
+                continue
+            reads_old = any(isinstance(x, ast.Attribute) and x.attr == b and isinstance(x.value, ast.Name) and x.value.id == selfn_ for x in ast.walk(conv.node))
+            idx = t.fields.index(b)
+            from_base = False
+            for st in walk_no_nested(conv.node):
+                if isinstance(st, ast.Assign) and isinstance(st.targets[0], ast.Tuple) and len(st.targets[0].elts) == len(t.fields) and isinstance(st.value, ast.Call) \
+                        and isinstance(st.value.func, ast.Attribute) and st.value.func.attr == "_alpha_convert":
+                    e = st.targets[0].elts[idx]
+                    if isinstance(e, ast.Name) and e.id != "_" and any(isinstance(r, ast.Return) and any(isinstance(y, ast.Name) and y.id == e.id for y in ast.walk(r))
+                                                                       for r in walk_no_nested(conv.node)):
+                        from_base = True
+            col.check(reads_old or from_base, f"{conv.fq}::field {b} rebuilt from the old binders",
+                      f"the new `{b}` is computed from `{selfn_}.{b}` (or taken from the base conversion)",
+                      f"`{conv.name}` of {t.name} never reads `{selfn_}.{b}`: the binders are rebuilt from the renaming map alone, so a binder the map does not mention "
+                      "(only some of the bound names need renaming when nested reductions are fused) is dropped - its name leaks into the inputs", conv.loc())
         results = _Conv(conv, refs, t.fields).run()
         if not results:
             col.violation(f"{conv.fq}::returns", "_alpha_convert never returns", conv.loc())
@@ -324,6 +344,11 @@ def run(prog: Program, col: Collector, tier: str, refs: Optional[Refs] = None, c
     # ---------------------------------------------------------------- R05.8
     col.rule("R05.8", "after a term is relabelled with fresh names, name sets are computed from the relabelled term, not the original", floor=1)
     _relabel_discipline(prog, col, refs, cat)
+
+    # ---------------------------------------------------------------- R05.9 (shared with C04: R04.11)
+    col.rule("R05.9", "fusing nested substitutions rewrites every inner value that mentions a key (so no substituted name survives inside a value)", floor=2)
+    from . import c04
+    c04._fusion(prog, col, refs, cat)
 
     # ---------------------------------------------------------------- R05.2
     col.rule("R05.2", "every constructed term is mangled: all bound names, fresh names, rebuilt through reflect", floor=6)
